@@ -41,6 +41,20 @@ func (c16concSuite) Gen(rng *Rng, tier string, w *bufio.Writer, stats *Stats) {
 		fmt.Fprintf(w, "# case %d\n", i)
 		fmt.Fprintf(w, "conc %s %d %d %d %d %d\n", kind, capacity, threads, per, 2+rng.Intn(2), rng.Next()%1000000)
 	}
+	// contention bursts: per round one sequential put, then every goroutine issues the SAME operation on the SAME key
+	// behind a barrier (check-then-act windows inside one method need same-key collisions to show)
+	nb := 120
+	if tier == "thorough" {
+		nb = 3000
+	}
+	for i := 1; i <= nb; i++ {
+		kind := "nemap"
+		if rng.Chance(1, 2) {
+			kind = "sieve"
+		}
+		fmt.Fprintf(w, "# case %d\n", n+i)
+		fmt.Fprintf(w, "burst %s %d %d %d %d\n", kind, 1+rng.Intn(3), 4+rng.Intn(5), 4+rng.Intn(5), rng.Next()%1000000)
+	}
 }
 
 type c16concRunner struct{ stats *Stats }
@@ -56,6 +70,9 @@ type c16Event struct {
 }
 
 func (r *c16concRunner) Step(t []string, raw string) string {
+	if len(t) == 6 && t[0] == "burst" {
+		return r.burst(t)
+	}
 	if len(t) != 7 || t[0] != "conc" {
 		return "bad-op"
 	}
@@ -159,5 +176,129 @@ func (r *c16concRunner) Step(t []string, raw string) string {
 	if t[1] == "nemap" && bound < 0 {
 		bound = 0
 	}
-	return fmt.Sprintf("%s | size=%d cap=%d", strings.Join(parts, ";"), st.Size(), bound)
+	return fmt.Sprintf("%s | size=%d cap=%d resident=%s", strings.Join(parts, ";"), st.Size(), bound, c16Resident(c, nkeys))
+}
+
+// c16Resident reads every key of the case's key space once, after all goroutines are done: the entries a caller can
+// still observe (k:v, ascending). Taken AFTER Stats() so that the lookups cannot influence the reported size.
+func c16Resident(c cache.Cache[int, int], nkeys int) string {
+	var parts []string
+	for k := 0; k < nkeys; k++ {
+		if v, ok := c.Get(k); ok {
+			parts = append(parts, fmt.Sprintf("%d:%d", k, v))
+		}
+	}
+	if len(parts) == 0 {
+		return "-"
+	}
+	return strings.Join(parts, ",")
+}
+
+// burst <sieve|nemap> <cap> <threads> <rounds> <seed>
+func (r *c16concRunner) burst(t []string) string {
+	var nums [4]int
+	for i := 0; i < 4; i++ {
+		n, err := strconv.Atoi(t[2+i])
+		if err != nil {
+			return "bad-op"
+		}
+		nums[i] = n
+	}
+	capacity, threads, rounds, seed := nums[0], nums[1], nums[2], nums[3]
+	const nkeys = 3
+	var c cache.Cache[int, int]
+	switch t[1] {
+	case "sieve":
+		c = cache.NewSieve[int, int](capacity)
+	case "nemap":
+		c = cache.NewNonExpiringMapCache[int, int](capacity)
+	default:
+		return "bad-op"
+	}
+	var (
+		clock    atomic.Int64
+		all      []c16Event
+		mu       sync.Mutex
+		panicked atomic.Bool
+		rng      = NewRng(uint64(seed))
+	)
+	deadline := time.After(30 * time.Second)
+	for round := 0; round < rounds; round++ {
+		k := rng.Intn(nkeys)
+		// sequential set-up: make the key resident (when the cache admits it)
+		ev := c16Event{t: 0, op: "put", k: k, v: rng.Intn(100), out: "ok"}
+		ev.inv = clock.Add(1)
+		c.Put(k, ev.v)
+		ev.ret = clock.Add(1)
+		all = append(all, ev)
+		op := Pick(rng, []string{"del", "del", "del", "put", "get"})
+		v := rng.Intn(100)
+		var wg sync.WaitGroup
+		start := make(chan struct{})
+		for th := 0; th < threads; th++ {
+			wg.Add(1)
+			go func(th int) {
+				defer wg.Done()
+				defer func() {
+					if p := recover(); p != nil {
+						panicked.Store(true)
+					}
+				}()
+				e := c16Event{t: th + 1, op: op, k: k, v: 0, out: "ok"}
+				<-start
+				switch op {
+				case "del":
+					e.inv = clock.Add(1)
+					c.Delete(k)
+					e.ret = clock.Add(1)
+				case "put":
+					e.v = v + th
+					e.inv = clock.Add(1)
+					c.Put(k, e.v)
+					e.ret = clock.Add(1)
+				default:
+					e.inv = clock.Add(1)
+					got, ok := c.Get(k)
+					e.ret = clock.Add(1)
+					if ok {
+						e.out = "hit=" + strconv.Itoa(got)
+					} else {
+						e.out = "miss"
+					}
+				}
+				mu.Lock()
+				all = append(all, e)
+				mu.Unlock()
+			}(th)
+		}
+		close(start)
+		done := make(chan struct{})
+		go func() { wg.Wait(); close(done) }()
+		select {
+		case <-done:
+		case <-deadline:
+			r.stats.Inc("hang")
+			return "hang"
+		}
+		if panicked.Load() {
+			return "panic"
+		}
+	}
+	sort.Slice(all, func(i, j int) bool { return all[i].inv < all[j].inv })
+	parts := make([]string, len(all))
+	overlaps := 0
+	for i, e := range all {
+		parts[i] = fmt.Sprintf("%d:%s:%d:%d:%s:%d:%d", e.t, e.op, e.k, e.v, e.out, e.inv, e.ret)
+		if i > 0 && all[i-1].ret > e.inv {
+			overlaps++
+		}
+	}
+	if overlaps > 0 {
+		r.stats.Inc("histories_with_overlap")
+		r.stats.Inc("burst_histories_with_overlap")
+	}
+	r.stats.Add("overlapping_pairs", int64(overlaps))
+	r.stats.Add("events", int64(len(all)))
+	st := c.Stats()
+	return fmt.Sprintf("%s | size=%d cap=%d resident=%s", strings.Join(parts, ";"), st.Size(), st.Capacity, c16Resident(c, nkeys))
 }
